@@ -371,14 +371,27 @@ class PageTemplate(BaseTemplate):
         digest = sha256(hex_b)
         digest.update(';'.join(names).encode('utf-8'))
 
+        # Every option that influences the generated code must be
+        # part of the digest, or templates that differ only in such
+        # an option would share a cached module.
         for attr in (
             'trim_attribute_space',
             'implicit_i18n_translate',
-            'strict'
+            'strict',
+            'mode',
+            'content_type',
+            'boolean_attributes',
+            'implicit_i18n_attributes',
+            'enable_data_attributes',
+            'enable_comment_interpolation',
+            'restricted_namespace',
+            'default_expression',
         ):
-            v = getattr(self, attr)
+            v = getattr(self, attr, None)
+            if isinstance(v, (set, frozenset, list, tuple)):
+                v = sorted(v)
             digest.update(
-                (";{}={}".format(attr, str(v))).encode('ascii')
+                (";{}={}".format(attr, str(v))).encode('utf-8')
             )
 
         return digest.hexdigest()[:32]
